@@ -7,7 +7,6 @@ import (
 	"mime/multipart"
 	"net/http"
 	"net/http/httptest"
-	"net/url"
 	"sort"
 	"strconv"
 	"strings"
@@ -260,10 +259,10 @@ func c03ExecMulti(in []string) []string {
 	if b == nil {
 		return []string{"INVALID"}
 	}
-	// ---- the request
+	// ---- the request; how it is spelled and delivered (c03Wire) is drawn from a checksum of the case
+	wire := c03WireOf(c03Sum(in...))
 	path := "/op"
-	q := url.Values{}
-	form := url.Values{}
+	var q, form [][2]string
 	var mbuf bytes.Buffer
 	mw := multipart.NewWriter(&mbuf)
 	hdr := http.Header{}
@@ -275,14 +274,14 @@ func c03ExecMulti(in []string) []string {
 		for _, v := range vals[i] {
 			switch d.in {
 			case "query":
-				q.Add(keys[i], v)
+				q = append(q, [2]string{keys[i], v})
 			case "header":
 				hdr.Add(keys[i], v)
 			case "path":
-				path += "/" + url.PathEscape(v)
+				path += "/" + c03PathEscape(v, wire.pathEnc)
 				rp = append(rp, middleware.RouteParam{Name: keys[i], Value: v})
 			case "form":
-				form.Add(keys[i], v)
+				form = append(form, [2]string{keys[i], v})
 			case "mform":
 				_ = mw.WriteField(keys[i], v)
 			}
@@ -291,26 +290,36 @@ func c03ExecMulti(in []string) []string {
 	_ = mw.Close()
 	target := "http://srv.test" + path
 	if len(q) > 0 {
-		target += "?" + q.Encode()
+		target += "?" + c03Encode(q, wire.enc)
 	}
+	var made []*http.Request
+	defer func() {
+		for _, r := range made {
+			c03Cleanup(r)
+		}
+	}()
 	mk := func() *http.Request {
 		var body io.Reader
 		ctype := ""
 		switch formKind {
 		case "form":
-			body, ctype = strings.NewReader(form.Encode()), "application/x-www-form-urlencoded"
+			body, ctype = c03BodyReader([]byte(c03Encode(form, wire.enc)), wire.chunked), "application/x-www-form-urlencoded"
 		case "mform":
-			body, ctype = bytes.NewReader(mbuf.Bytes()), mw.FormDataContentType()
+			body, ctype = c03BodyReader(mbuf.Bytes(), wire.chunked), mw.FormDataContentType()
 		}
 		req := httptest.NewRequest(method, target, body)
 		if ctype != "" {
-			req.Header.Set("Content-Type", ctype)
+			req.Header.Set("Content-Type", c03ContentType(ctype, wire.ctype))
 		}
 		for hk, hv := range hdr {
 			for _, v := range hv {
 				req.Header.Add(hk, v)
 			}
 		}
+		if body != nil {
+			c03Preparse(req, formKind == "mform", wire.preparse)
+		}
+		made = append(made, req)
 		return req
 	}
 	switch in[0] {
